@@ -250,7 +250,7 @@ pub fn run(ctx: &mut Ctx) -> Result<(), Violation> {
     let seed = ctx.seed;
     // special table x scalars
     let mut f = ctx.fill("scalars");
-    let scalars = special_scalars(&mut f, ctx.tier.pick(48, 160));
+    let scalars = special_scalars(&mut f, ctx.tier.pick(96, 200));
     let specials = special_points();
     let mut items: Vec<(Case, String)> = vec![];
     for (p, name) in &specials {
@@ -272,7 +272,7 @@ pub fn run(ctx: &mut Ctx) -> Result<(), Violation> {
         Ok(())
     })?;
     // honest pairs
-    let pairs: Vec<u64> = (0..ctx.tier.pick(2000u64, 50_000)).collect();
+    let pairs: Vec<u64> = (0..ctx.tier.pick(20_000u64, 200_000)).collect();
     ctx.par_each(&pairs, |_, &i, ev| {
         let mut f = Fill::new(seed, &format!("C05:honest:{i}"));
         let (a, b): ([u8; 32], [u8; 32]) = (f.arr(), f.arr());
@@ -281,7 +281,7 @@ pub fn run(ctx: &mut Ctx) -> Result<(), Violation> {
         check_honest(&a, &b).map_err(|m| Violation::new("C05", "honest", m, json!({"seed_a": hx(&a), "seed_b": hx(&b)})))
     })?;
     // random pairs with shrinking
-    let n = ctx.tier.pick(6000u32, 500_000);
+    let n = ctx.tier.pick(48_000u32, 800_000);
     let shards: Vec<u64> = (0..ctx.threads as u64).collect();
     let per = n / ctx.threads.max(1) as u32 + 1;
     ctx.par_each(&shards, |_, &sh, ev| {
@@ -294,7 +294,7 @@ pub fn run(ctx: &mut Ctx) -> Result<(), Violation> {
         })
     })?;
     // RFC 7748 §5.2 iterated vectors through dryoc
-    let iters = ctx.tier.pick(1000usize, 1_000_000);
+    let iters = ctx.tier.pick(20_000usize, 1_000_000);
     let mut k = [0u8; 32];
     k[0] = 9;
     let mut u = k;
